@@ -60,6 +60,8 @@ pub struct IoMenu {
     pub write_pending: bool,
     pub write_err: bool,
     pub write_zero: bool,
+    /// once a write has answered Ok(0) the transport keeps answering Ok(0) until the API call returns
+    pub write_zero_sticky: bool,
     /// a failing write / flush / read reports its error but the transport object stays usable afterwards (what a
     /// transient condition looks like): whatever the client does next shows on the wire
     pub err_keeps_open: bool,
@@ -101,6 +103,7 @@ impl IoMenu {
             write_pending: true,
             write_err: true,
             write_zero: false,
+            write_zero_sticky: false,
             err_keeps_open: false,
             flush_pending: true,
             flush_err: true,
